@@ -479,6 +479,17 @@ func cmdCheck(args []string) {
 		os.MkdirAll(filepath.Join(*verif, "baseline"), 0755)
 		os.WriteFile(filepath.Join(*verif, "baseline", "obligations.json"), append(b, '\n'), 0644)
 		fmt.Printf("ledger: %d obligations recorded for %s\n", len(ds), *prop)
+		// the loops seen in this run and what they carry without an invariant (see havocLoop)
+		loops := map[string][]string{}
+		readJSON(filepath.Join(*verif, "baseline", "loops.json"), &loops)
+		p.loopMu.Lock()
+		for k, v := range p.seenLoops {
+			sort.Strings(v)
+			loops[k] = v
+		}
+		p.loopMu.Unlock()
+		lb, _ := json.MarshalIndent(loops, "", " ")
+		os.WriteFile(filepath.Join(*verif, "baseline", "loops.json"), append(lb, '\n'), 0644)
 	}
 
 	// bounded stand-ins (never counted as discharged)
@@ -618,6 +629,18 @@ func cmdCheck(args []string) {
 			} else {
 				rec.Status = "failed-outside-known-class"
 				report(n, "fails outside the classes listed in known_findings.json")
+			}
+		case n.Status == "failed" && n.allWeak() && n.Kind != "write-set" && n.Kind != "frame" && n.Kind != "immutable":
+			// every failing instance lies behind a loop of an inlined function that was cut without an invariant: the
+			// counterexample may be an artefact of forgetting what that loop does. Only a replayed input counts.
+			file, ok := writeReplay(p, *verif, replayDir, *prop, n, "fails only behind a loop cut without an invariant for what it carries", sd)
+			if ok {
+				nOblig++
+				violations = append(violations, fmt.Sprintf("VIOLATION property=%s replay=%s obligation=%s", *prop, file, n.Name))
+			} else {
+				rec.Status = "undecided"
+				rec.Note = "fails only on paths through a loop that was cut without an invariant for what it carries: " + n.Fails[0].O.Weak + "; not confirmed by replay"
+				undecidable("obligation %s is not decidable: it fails only behind a loop that was cut without an invariant for what it carries: %s", n.Name, n.Fails[0].O.Weak)
 			}
 		case n.Status == "failed":
 			base := n.Name
@@ -778,6 +801,11 @@ func cmdCheck(args []string) {
 	for _, u := range units {
 		if u.unsupported != "" {
 			undecidable("function %s left the supported subset: %s", p.keyOf[u.fn], u.unsupported)
+		}
+		for _, ub := range u.unbound {
+			if hasProp(ub.props, *prop) {
+				undecidable("%s", ub.msg)
+			}
 		}
 	}
 	if len(unbound) > 0 {
